@@ -192,7 +192,7 @@ def end_of_procedure(case, o, issue):
     """finding: the patch sits exactly on a .cfi_endproc"""
     if issue["kind"] != "patch-directive":
         return False
-    text = case["text"]
+    text = emodify.flat_of(case)
     for e in case.get("edits", []):
         d = text[e["block"]]
         if ".cfi" in e.get("asm", "") and any(k == e["off"] and any(x[0] == ".cfi_endproc" for x in ds) for k, ds in d.get("cfi", [])):
